@@ -18,6 +18,17 @@ Theorem C15_fold_order : forall ps qs h o,
 Proof. exact apply_hook_app. Qed.
 Print Assumptions C15_fold_order.
 
+(* ---- the configuration route (plugins/explorer.py): class-path and module-path entries are applied in the order of
+        the entries [by-construction + tie: c15_source compares the real get_plugins_types, K3 compares packages] ---- *)
+Theorem C15_entries_applied_in_order : forall a b h o,
+  apply_hook (resolve_entries (a ++ b)) h o =
+  match apply_hook (resolve_entries a) h o with
+  | None => None
+  | Some (ps', o1) => match apply_hook (resolve_entries b) h o1 with None => None | Some (qs', o2) => Some (ps' ++ qs', o2) end
+  end.
+Proof. exact entries_applied_in_order. Qed.
+Print Assumptions C15_entries_applied_in_order.
+
 (* ---- a plugin overriding no hook changes nothing: every hook, every position, whole package
         [full over the model; "no byte" is the K3 byte-identical-tree check] ---- *)
 Theorem C15_identity_neutral_hook : forall ps qs h o,
